@@ -118,22 +118,21 @@ Proof.
 Qed.
 
 (* ---- fields ----------------------------------------------------------------------------------------------- *)
-Lemma firstn_nonempty : forall (n : N) (s : text), n <> 0 -> s <> [] -> firstn (N.to_nat n) s <> [].
+Lemma stored_nonempty : forall v, stored (nonempty_value v) = nonempty_value v.
 Proof.
-  intros n s Hn Hs. destruct s as [|x s]; [congruence|].
-  destruct (N.to_nat n) eqn:Hk; [lia | cbn; discriminate].
+  intros [x|]; [|reflexivity]. unfold nonempty_value. destruct (v_text x) eqn:Ht; [reflexivity|].
+  unfold stored. rewrite Ht. reflexivity.
 Qed.
 
 Lemma apply_field_inner : forall f raw c c1 evs b,
-  max_field_chars E <> 0 ->
   apply_field E f raw c = (c1, evs, b) ->
   erase (replay evs c) = erase c1 /\ has_change_event evs = b
   /\ (b = false -> erase c1 = erase c)
   /\ (b = true -> forall gs, ~ same_contact c (with_groups c1 gs))
   /\ c_groups c1 = c_groups c /\ c_status c1 = c_status c.
 Proof.
-  intros f raw c c1 evs b Hmax H. unfold apply_field in H.
-  set (new := option_map (truncate_value E) (parse_value E (c_fields c) f raw)) in *.
+  intros f raw c c1 evs b H. unfold apply_field in H.
+  set (new := nonempty_value (option_map (truncate_value E) (parse_value E (c_fields c) f raw))) in *.
   destruct (ofvalue_eqb new (fget f (c_fields c))) eqn:Heq; cbn [negb] in H; inversion H; subst c1 evs b.
   - repeat split; try reflexivity; discriminate.
   - split; [reflexivity|]. split; [reflexivity|]. split; [discriminate|].
@@ -141,15 +140,8 @@ Proof.
     intros _ gs Hs. destruct Hs as [_ [_ [_ [_ [_ [_ [_ [Hf _]]]]]]]]. specialize (Hf f).
     assert (Hfs : c_fields (with_groups (with_fields c (fset f new (c_fields c))) gs) = fset f new (c_fields c))
       by (destruct c; reflexivity).
-    rewrite Hfs, fget_fset_same in Hf.
-    assert (Hst : stored new = new).
-    { unfold new, parse_value. destruct raw as [|x raw]; [reflexivity|].
-      destruct (parse_loc E (field_type E f) _ (x :: raw)) as [[st di] wa]. cbn [option_map truncate_value stored v_text].
-      unfold truncate.
-      destruct (firstn (N.to_nat (max_field_chars E)) (x :: raw)) eqn:Hfn; [|reflexivity].
-      exfalso. apply (firstn_nonempty _ (x :: raw) Hmax); [discriminate | exact Hfn]. }
-    rewrite Hst in Hf. rewrite Hf in Heq.
-    rewrite (proj2 (ofvalue_eqb_eq _ _) eq_refl) in Heq. discriminate.
+    rewrite Hfs, fget_fset_same in Hf. unfold new in Hf at 1. rewrite stored_nonempty in Hf. fold new in Hf.
+    rewrite Hf in Heq. rewrite (proj2 (ofvalue_eqb_eq _ _) eq_refl) in Heq. discriminate.
 Qed.
 
 (* ---- groups ----------------------------------------------------------------------------------------------- *)
@@ -300,7 +292,7 @@ Lemma apply_inner_spec : forall fresh m c c1 evs b,
   erase (replay evs c) = erase c1
   /\ has_change_event evs = b
   /\ (b = false -> erase c1 = erase c)
-  /\ (max_field_chars E <> 0 -> b = true -> lasting_change E c c1)
+  /\ (b = true -> lasting_change E c c1)
   /\ wf_contact E c1.
 Proof.
   intros fresh m c c1 evs b [Hnd Hincl] Hm H. destruct m; cbn [apply_inner] in H.
@@ -308,49 +300,44 @@ Proof.
     destruct (text_eqb (c_name c) (truncate (max_field_chars E) n)) eqn:Heq; cbn [negb] in H; inversion H; subst.
     + repeat split; try reflexivity; try assumption; discriminate.
     + split; [reflexivity|]. split; [reflexivity|]. split; [discriminate|]. split; [|split; destruct c; assumption].
-      intros _ _. left. intros gs [Hs _]. destruct c; cbn in *. rewrite Hs, text_eqb_refl in Heq. discriminate.
+      intros _. left. intros gs [Hs _]. destruct c; cbn in *. rewrite Hs, text_eqb_refl in Heq. discriminate.
   - (* language *) unfold apply_language in H.
     destruct (N.eqb (c_lang c) l) eqn:Heq; cbn [negb] in H; inversion H; subst.
     + repeat split; try reflexivity; try assumption; discriminate.
     + split; [reflexivity|]. split; [reflexivity|]. split; [discriminate|]. split; [|split; destruct c; assumption].
-      intros _ _. left. intros gs [_ [Hs _]]. destruct c; cbn in *. rewrite Hs, N.eqb_refl in Heq. discriminate.
+      intros _. left. intros gs [_ [Hs _]]. destruct c; cbn in *. rewrite Hs, N.eqb_refl in Heq. discriminate.
   - (* status *) unfold apply_status in H.
     destruct (status_eqb (c_status c) s) eqn:Heq; cbn [negb] in H; inversion H; subst.
     + repeat split; try reflexivity; try assumption; discriminate.
     + split; [reflexivity|]. split; [reflexivity|]. split; [discriminate|]. split; [|split; destruct c; assumption].
-      intros _ _. left. intros gs [_ [_ [Hs _]]]. destruct c; cbn in *.
+      intros _. left. intros gs [_ [_ [Hs _]]]. destruct c; cbn in *.
       rewrite Hs, (proj2 (status_eqb_eq s s) eq_refl) in Heq. discriminate.
   - (* timezone *) unfold apply_timezone in H.
     destruct (optN_eqb (c_tz c) tz) eqn:Heq; cbn [negb] in H; inversion H; subst.
     + repeat split; try reflexivity; try assumption; discriminate.
     + split; [reflexivity|]. split; [reflexivity|]. split; [discriminate|]. split; [|split; destruct c; assumption].
-      intros _ _. left. intros gs [_ [_ [_ [Hs _]]]]. destruct c; cbn in *.
+      intros _. left. intros gs [_ [_ [_ [Hs _]]]]. destruct c; cbn in *.
       rewrite Hs, (proj2 (optN_eqb_eq tz tz) eq_refl) in Heq. discriminate.
   - (* field *)
-    assert (Hweak : erase (replay evs c) = erase c1 /\ has_change_event evs = b /\ (b = false -> erase c1 = erase c)
-                    /\ c_groups c1 = c_groups c).
-    { unfold apply_field in H.
-      destruct (ofvalue_eqb (option_map (truncate_value E) (parse_value E (c_fields c) f raw)) (fget f (c_fields c)));
-        cbn [negb] in H; inversion H; subst; repeat split; try reflexivity; try discriminate. }
-    destruct Hweak as [W1 [W2 [W3 W4]]]. split; [exact W1|]. split; [exact W2|]. split; [exact W3|].
-    split; [|unfold wf_contact; rewrite W4; split; assumption].
-    intros Hmax Hb. left. destruct (apply_field_inner E f raw c c1 evs b Hmax H) as [_ [_ [_ [H4 _]]]]. apply H4. exact Hb.
+    destruct (apply_field_inner E f raw c c1 evs b H) as [H1 [H2 [H3 [H4 [H5 H6]]]]].
+    split; [exact H1|]. split; [exact H2|]. split; [exact H3|]. split; [intros Hb; left; apply H4; exact Hb|].
+    unfold wf_contact. rewrite H5. split; assumption.
   - (* groups *)
     destruct (apply_groups_inner E gs md c c1 evs b Hnd H) as [H1 [H2 [H3 [H4 [H5 [H6 H7]]]]]].
-    split; [exact H1|]. split; [exact H2|]. split; [exact H3|]. split; [intros _ Hb; right; apply H4; exact Hb|].
+    split; [exact H1|]. split; [exact H2|]. split; [exact H3|]. split; [intros Hb; right; apply H4; exact Hb|].
     split; [exact H6 | apply H7; assumption].
   - (* urns *)
     destruct (apply_urns_inner E us md c c1 evs b H) as [H1 [H2 [H3 [H4 [H5 H6]]]]].
-    split; [exact H1|]. split; [exact H2|]. split; [exact H3|]. split; [intros _ Hb; left; apply H4; exact Hb|].
+    split; [exact H1|]. split; [exact H2|]. split; [exact H3|]. split; [intros Hb; left; apply H4; exact Hb|].
     unfold wf_contact. rewrite H5. split; assumption.
   - (* channel *)
     destruct (apply_channel_inner E ch c c1 evs b H) as [H1 [H2 [H3 [H4 [H5 H6]]]]].
-    split; [exact H1|]. split; [exact H2|]. split; [exact H3|]. split; [intros _ Hb; left; apply H4; exact Hb|].
+    split; [exact H1|]. split; [exact H2|]. split; [exact H3|]. split; [intros Hb; left; apply H4; exact Hb|].
     unfold wf_contact. rewrite H5. split; assumption.
   - (* ticket *) unfold apply_ticket in H. destruct (c_ticket c) eqn:Ht; inversion H; subst.
     + repeat split; try reflexivity; try assumption; discriminate.
     + split; [reflexivity|]. split; [reflexivity|]. split; [discriminate|]. split; [|split; destruct c; assumption].
-      intros _ _. left. intros gs [_ [_ [_ [_ [_ [_ [_ [_ Hs]]]]]]]]. destruct c; cbn in *. congruence.
+      intros _. left. intros gs [_ [_ [_ [_ [_ [_ [_ [_ Hs]]]]]]]]. destruct c; cbn in *. congruence.
 Qed.
 
 Lemma replay_group_events : forall evs c,
@@ -381,11 +368,11 @@ Qed.
 
 (* C03, second clause: modified <-> a change event was emitted <-> the contact visibly changed *)
 Theorem modified_iff_changed : forall fresh m c c' evs b,
-  wf_contact E c -> mod_wf E m -> max_field_chars E <> 0 ->
+  wf_contact E c -> mod_wf E m ->
   apply E fresh m c = (c', evs, b) ->
   (b = true <-> has_change_event evs = true) /\ (b = true <-> ~ same_contact c c').
 Proof.
-  intros fresh m c c' evs b Hwf Hm Hmax H. unfold apply in H.
+  intros fresh m c c' evs b Hwf Hm H. unfold apply in H.
   destruct (apply_inner E fresh m c) as [[c1 evs1] b1] eqn:HI.
   destruct (apply_inner_spec fresh m c c1 evs1 b1 Hwf Hm HI) as [H1 [H2 [H3 [H4 Hwf1]]]].
   destruct b1.
@@ -393,7 +380,7 @@ Proof.
     destruct (reevaluate_groups_spec E c1 c2 evs2 Hwf1 HR) as [G1 [G2 [G3 [G4 [G5 [G6 G7]]]]]].
     split; [rewrite has_change_app, H2; cbn; tauto|].
     split; [intros _|reflexivity].
-    destruct (H4 Hmax eq_refl) as [L|[Hact [g [Hq Hd]]]].
+    destruct (H4 eq_refl) as [L|[Hact [g [Hq Hd]]]].
     + rewrite G1. apply L.
     + intros [_ [_ [_ [_ [_ [_ [Hg _]]]]]]]. apply Hd. rewrite Hg. apply G6; assumption.
   - inversion H; subst c' evs b. split; [rewrite H2; tauto|].
@@ -478,14 +465,12 @@ Definition ex_contact (name : text) (gs : list N) : contact :=
   {| c_name := name; c_lang := 1; c_status := Active; c_tz := None; c_last_seen := None;
      c_urns := []; c_groups := gs; c_fields := []; c_ticket := None |}.
 
-Example ex_wf : wf_contact ex_env (ex_contact [106] [0; 1]) /\ mod_wf ex_env (MGroups [0] GAdd)
-                /\ max_field_chars ex_env <> 0.
+Example ex_wf : wf_contact ex_env (ex_contact [106] [0; 1]) /\ mod_wf ex_env (MGroups [0] GAdd).
 Proof.
-  split; [split|split].
+  split; [split|].
   - repeat constructor; cbn; intuition discriminate.
   - intros g [H|[H|[]]]; subst; cbn; tauto.
   - intros g [H|[]]; subst; cbn; tauto.
-  - discriminate.
 Qed.
 
 (* the modifier changes the name to "bob": the contact joins query group 1, and the events replay *)
